@@ -23,6 +23,7 @@ type cexFile struct {
 	Label     string            `json:"label"`
 	Inputs    map[string]uint64 `json:"inputs"`
 	Predicted map[string]string `json:"predicted"`
+	Params    map[string]int    `json:"params"`
 	Kind      string            `json:"kind"`
 }
 
@@ -79,6 +80,15 @@ func String(nm string, n int) string { return string(Bytes(nm, n)) }
 
 // Choice is a structural choice in [0,k): the engine explores every value.
 func Choice(n string, k int) int { return int(in(n)) }
+
+// Param is a tier-dependent bound (engine: from the check's configuration;
+// replay: recorded in the counterexample file).
+func Param(n string, def int) int {
+	if v, ok := cex.Params[n]; ok {
+		return v
+	}
+	return def
+}
 
 type skip struct{}
 
